@@ -431,6 +431,16 @@ func (g *group) encode(o observation) int {
 	return ix
 }
 
+func (g *group) reencode(key string) int {
+	ix, ok := g.bookIx[key]
+	if !ok {
+		ix = len(g.book)
+		g.book = append(g.book, key)
+		g.bookIx[key] = ix
+	}
+	return ix
+}
+
 func (g *group) width() int {
 	switch {
 	case len(g.book) <= 90:
@@ -454,6 +464,19 @@ func pack90(w int, xs []int) string {
 		}
 	}
 	return string(b)
+}
+
+// chunks: the packed indices as a list of string literals of at most 1500 indices each
+func chunks(w int, xs []int) string {
+	var parts []string
+	for i := 0; i < len(xs); i += 1500 {
+		j := i + 1500
+		if j > len(xs) {
+			j = len(xs)
+		}
+		parts = append(parts, `"`+CoqEscape(pack90(w, xs[i:j]))+`"`)
+	}
+	return "[" + strings.Join(parts, ";\n  ") + "]%string"
 }
 
 func coqArgs(args []core.Value) string {
@@ -501,7 +524,7 @@ func (g *group) write(dir, fname, def, fun string, withPct bool) {
 		if i == len(g.jobs)-1 {
 			sep = ""
 		}
-		fmt.Fprintf(w, " (%d%%N, %s, %d%%N, \"%s\"%%string)%s\n", j.fn.id, j.fam.coq(), wd, CoqEscape(pack90(wd, j.obs)), sep)
+		fmt.Fprintf(w, " (%d%%N, %s, %d%%N, %s)%s\n", j.fn.id, j.fam.coq(), wd, chunks(wd, j.obs), sep)
 	}
 	fmt.Fprintln(w, "].")
 	fmt.Fprintln(w, "Definition E : list (N * list value) := [")
@@ -515,7 +538,7 @@ func (g *group) write(dir, fname, def, fun string, withPct bool) {
 		eo[i] = e.obs
 	}
 	fmt.Fprintln(w, "].")
-	fmt.Fprintf(w, "Definition ES : string := \"%s\"%%string.\n", CoqEscape(pack90(wd, eo)))
+	fmt.Fprintf(w, "Definition ES : list string := %s.\n", chunks(wd, eo))
 	if withPct {
 		fmt.Fprintln(w, "Definition PE : list (list value * list Z) := [")
 		var po []int
@@ -532,7 +555,7 @@ func (g *group) write(dir, fname, def, fun string, withPct bool) {
 			po = append(po, e.obs...)
 		}
 		fmt.Fprintln(w, "].")
-		fmt.Fprintf(w, "Definition PES : string := \"%s\"%%string.\n", CoqEscape(pack90(wd, po)))
+		fmt.Fprintf(w, "Definition PES : list string := %s.\n", chunks(wd, po))
 		fmt.Fprintf(w, "Definition %s := Eval vm_compute in %s PL OB JOBS E %d%%N ES PE PES.\n", def, fun, wd)
 	} else {
 		fmt.Fprintf(w, "Definition %s := Eval vm_compute in %s PL OB JOBS E %d%%N ES.\n", def, fun, wd)
@@ -625,16 +648,39 @@ func main() {
 
 	// explicit cases: random larger inputs and ill-typed calls
 	ge := newGroup("explicit", pools{})
-	groups = append(groups, ge)
 	nRand := 12
 	if thorough {
-		nRand = 400
+		nRand = 300
 	}
 	genExplicit(ge, rng, nRand, m, distinct)
 	m.DistinctNontrivial += len(distinct)
 
 	// through compiled FQL: a sample of the explicit cases
 	fqlDiffs := runFQLSample(ge, m, thorough)
+	// one case file per 400 explicit cases (literals are slow to parse)
+	for lo, k := 0, 0; lo < len(ge.exp) || k == 0; lo, k = lo+400, k+1 {
+		hi := lo + 400
+		if hi > len(ge.exp) {
+			hi = len(ge.exp)
+		}
+		part := newGroup(fmt.Sprintf("explicit-%d", k), pools{})
+		for _, e := range ge.exp[lo:hi] {
+			c := *e
+			c.obs = part.reencode(ge.book[e.obs])
+			part.exp = append(part.exp, &c)
+		}
+		if k == 0 {
+			for _, pc := range ge.pexp {
+				c := *pc
+				c.obs = nil
+				for _, o := range pc.obs {
+					c.obs = append(c.obs, part.reencode(ge.book[o]))
+				}
+				part.pexp = append(part.pexp, &c)
+			}
+		}
+		groups = append(groups, part)
+	}
 
 	for i, g := range groups {
 		g.write(out, fmt.Sprintf("cases%02d.v", i), "M", "mismatches", true)
